@@ -390,14 +390,26 @@ int ChainSim::MineOn(int parent, int ntx, uint64_t txseed, int defect, int bound
             break;
         }
         case D_NONFINAL_HEIGHT:
-            if (auto c = one_input(any)) { simple_spend(*c, 0xfffffffe, (uint32_t)height, 1); ctx.probe("defect_nonfinal_height"); }
-            break;
         case D_NONFINAL_TIME:
-            if (auto c = one_input(any)) { simple_spend(*c, 0xfffffffe, (uint32_t)mtp, 1); ctx.probe("defect_nonfinal_time"); }
+            if (auto c = one_input(any)) {
+                const uint32_t lt = defect == D_NONFINAL_HEIGHT ? (uint32_t)height : (uint32_t)mtp;
+                std::optional<Cand> c2 = r.chance(1, 2) ? one_input(any) : std::nullopt;
+                if (c2) {
+                    // two inputs of which only ONE is non-final (either order): the lock time still applies
+                    std::vector<TxIn> ins{{c->op, c->coin, 0xfffffffe}, {c2->op, c2->coin, 0xffffffff}};
+                    if (r.chance(1, 2)) std::swap(ins[0], ins[1]);
+                    CAmount tot = c->coin.value + c2->coin.value, fee = std::min<CAmount>(tot, 1000);
+                    fees += fee;
+                    add_tx(ins, {CTxOut(tot - fee, kr.Spk(SK::P2WPKH, (int)r.below(N_KEYS)))}, lt, 1);
+                    ctx.probe("defect_nonfinal_mixed_sequences");
+                } else simple_spend(*c, 0xfffffffe, lt, 1);
+                ctx.probe(defect == D_NONFINAL_HEIGHT ? "defect_nonfinal_height" : "defect_nonfinal_time");
+            }
             break;
         case D_BIP68_HEIGHT:
             if (auto c = one_input([&](const Cand& k) { return height - k.coin.height + 1 <= 0xffff && k.coin.height <= P.height; })) {
-                simple_spend(*c, (uint32_t)(height - c->coin.height + 1), 0, 2);
+                static const uint32_t kVersions[] = {2, 2, 3, 0x80000002u, 0xffffffffu};
+                simple_spend(*c, (uint32_t)(height - c->coin.height + 1), 0, kVersions[r.below(5)]);
                 ctx.probe("defect_bip68_height");
             }
             break;
@@ -405,7 +417,7 @@ int ChainSim::MineOn(int parent, int ntx, uint64_t txseed, int defect, int bound
             if (auto c = one_input([&](const Cand& k) { return k.coin.height <= P.height; })) {
                 int64_t coin_time = ref->MTP(ref->Ancestor(parent, std::max(c->coin.height - 1, 0)));
                 int64_t n = (mtp - coin_time) / 512 + 1;
-                if (n >= 0 && n <= 0xffff) { simple_spend(*c, (uint32_t)((1u << 22) | n), 0, 2); ctx.probe("defect_bip68_time"); }
+                if (n >= 0 && n <= 0xffff) { simple_spend(*c, (uint32_t)((1u << 22) | n), 0, r.chance(1, 3) ? 0x80000002u : 2); ctx.probe("defect_bip68_time"); }
                 else simple_spend(*c, 0xffffffff, 0, 2);
             }
             break;
